@@ -103,6 +103,11 @@ private def demoV : View :=
 
 example : demoE.ok none := ⟨fun _ => rfl, fun _ h => by cases h⟩
 example : savable demoC demoV = true := by decide +kernel
+/-- a custom loader in the save context (found again through the global loader) satisfies the hypothesis too -/
+private def demoL : Loader := { defaultLoader with name := "harness.persist_gen:PrefixLoader" }
+private def demoE' : Env := { demoE with find := fun n => if n = demoL.name then some demoL else none }
+example : demoE'.ok (some demoL) :=
+  ⟨fun _ => rfl, fun L h => by cases h; exact ⟨fun _ => rfl, by simp [demoE', demoL]⟩⟩
 example : load demoE demoC none (save demoE demoC none demoV) = .ok demoV :=
   (C07_load_save demoE none demoC demoV ⟨fun _ => rfl, fun _ h => by cases h⟩ (by decide +kernel) none (Or.inl rfl)).1
 
